@@ -22,6 +22,7 @@ import (
 //	stall    : the reply of the tagged command is withheld for `delay` (0 = not stalled, <0 = forever)
 //	lifetime : ConnLifetime (the expiry timer lands while the command is in flight when startAt is just before it)
 type c03cfg struct {
+	keepalive time.Duration // >0: keep-alive pings of the connection are enabled with this period
 	name     string
 	api      string // do | multi (APPEND a, APPEND b) | txn (MULTI, APPEND, EXEC)
 	callers  int
@@ -38,6 +39,9 @@ func c03body(c c03cfg) func(x *vsched.Exec) {
 		e := vwNew(func(o *ClientOption, srv *simredis.Server, n *simnet.Net) {
 			o.AlwaysPipelining = c.always
 			o.ConnLifetime = c.lifetime
+			if c.keepalive > 0 {
+				o.Dialer.KeepAlive = c.keepalive
+			}
 			o.DisableRetry = !c.retry
 			if c.retry {
 				o.RetryDelay = func(int, Completed, error) time.Duration { return 0 }
@@ -139,7 +143,7 @@ func c03body(c c03cfg) func(x *vsched.Exec) {
 
 func TestVerif_C03(t *testing.T) {
 	vrun.Main(t, "C03", func(r *vrun.Run) {
-		r.Rule = "1-2 callers issue non-retryable writes (Do / DoMulti / MULTI..EXEC) on a real single client; environment: connection dropped before or after executing a command at every command (deviation), reply withheld for 0.5s / 2s / forever, connection-lifetime expiry landing while the command is in flight (virtual clock), retries enabled with zero delay; all schedules within the preemption/delay/deviation bound; oracle: the server-side log contains each tagged write at most once; non-trivial = schedule in which a thread blocked"
+		r.Rule = "1-2 callers issue non-retryable writes (Do / DoMulti / MULTI..EXEC) on a real single client; environment: connection dropped before or after executing a command at every command (deviation), reply withheld for 0.5s / 2s / forever, connection-lifetime expiry landing while the command is in flight (virtual clock), keep-alive ping ticks landing inside the close grace period before or after the reply, retries enabled with zero delay; all schedules within the preemption/delay/deviation bound; oracle: the server-side log contains each tagged write at most once; non-trivial = schedule in which a thread blocked"
 		sec, ms := time.Second, time.Millisecond
 		cfgs := []c03cfg{
 			{name: "drop/do", api: "do", callers: 1, fault: true, retry: true},
@@ -154,6 +158,11 @@ func TestVerif_C03(t *testing.T) {
 			{name: "lifetime/always/txn-slow-reply", api: "txn", callers: 1, always: true, lifetime: 5 * sec, startAt: 4900 * ms, delay: 2 * sec},
 			{name: "lifetime/sync/do-slow-reply", api: "do", callers: 1, lifetime: 5 * sec, startAt: 4900 * ms, delay: 2 * sec},
 			{name: "lifetime/always/do|do-slow-reply", api: "do", callers: 2, always: true, lifetime: 5 * sec, startAt: 4900 * ms, delay: 2 * sec},
+			{name: "lifetime+keepalive1300/always/do-fast-reply", api: "do", callers: 1, always: true, lifetime: 5 * sec, startAt: 4900 * ms, delay: 500 * ms, keepalive: 1300 * ms},
+			{name: "lifetime+keepalive1100/always/do-fast-reply", api: "do", callers: 1, always: true, lifetime: 5 * sec, startAt: 4900 * ms, delay: 500 * ms, keepalive: 1100 * ms},
+			{name: "lifetime+keepalive2600/always/multi-fast-reply", api: "multi", callers: 1, always: true, lifetime: 5 * sec, startAt: 4900 * ms, delay: 500 * ms, keepalive: 2600 * ms},
+			{name: "lifetime+keepalive1300/always/txn-fast-reply", api: "txn", callers: 1, always: true, lifetime: 5 * sec, startAt: 4900 * ms, delay: 500 * ms, keepalive: 1300 * ms},
+			{name: "lifetime+keepalive1300/always/do|do-fast-reply", api: "do", callers: 2, always: true, lifetime: 5 * sec, startAt: 4900 * ms, delay: 500 * ms, keepalive: 1300 * ms},
 			{name: "lifetime+drop/always/do", api: "do", callers: 1, always: true, fault: true, lifetime: 5 * sec, startAt: 4900 * ms, delay: 500 * ms},
 		}
 		for ci, c := range cfgs {
